@@ -13,6 +13,27 @@ Theorem C12_history : forall ct cv h1 h2 vo em,
   snd (to_nifti (run (init ct cv) h1) vo em) = snd (to_nifti (run (init ct cv) h2) vo em).
 Proof. exact C12_history_lemma. Qed.
 
+(** The same for EVERY query and conversion: shape, data (file order per voxel block, shape, dtype), affine (source
+    file and slice column) and to_nifti_wrapper after any two histories that accepted the same files.  Together
+    with the correspondence check (Stack.Corr.check compares, operation by operation, the implementation with
+    [trace] = the model after the same calls, see [C12_trace]) this is: code after a history = model after that
+    history (checked per case inside Coq) = model on a fresh stack (this theorem). *)
+Theorem C12_queries : forall ct cv h1 h2 o,
+  Permutation (accepted (init ct cv) h1) (accepted (init ct cv) h2) ->
+  match o with
+  | OAdd _ => True
+  | _ => snd (step (run (init ct cv) h1) o) = snd (step (run (init ct cv) h2) o)
+  end.
+Proof. exact C12_queries_lemma. Qed.
+
+(** What the correspondence check evaluates: item k of the trace is the k-th call applied to the model after the
+    first k calls. *)
+Theorem C12_trace : forall h st k d,
+  k < length h ->
+  nth k (trace st h) d =
+  let '(s, x) := step (run st (firstn k h)) (nth k h OGetShape) in (x, (ids (files_info s), shape_dirty s)).
+Proof. exact trace_spec. Qed.
+
 (** The files added in another order, followed by any sequence of queries and conversions, against a
     fresh stack. *)
 Theorem C12_fresh : forall ct cv fs fs' ops vo em,
@@ -88,6 +109,16 @@ Example C12_dtype_ex :
   Permutation ex_files (rev ex_files) /\ stack_dtype ex_files = 4 /\
   stack_dtype [fl 0 0 10; fl 2 2 10] = 0 /\ stack_dtype [fl 4 1 20] = 1.
 Proof. split; [apply Permutation_rev|]. split; [reflexivity|]. split; reflexivity. Qed.
+
+Example C12_queries_ex :
+  snd (step (run (init false false) (map OAdd (rev ex_files) ++ ex_ops)) OGetAffine) = Ok (OutAffine 0 (Some (0, 1))) /\
+  snd (step (run (init false false) (map OAdd ex_files)) OGetAffine) = Ok (OutAffine 0 (Some (0, 1))) /\
+  snd (step (run (init false false) (map OAdd (rev ex_files) ++ ex_ops)) OGetData)
+  = Ok (OutData [0; 1; 2; 3; 4; 5] [2; 3; 3; 2] 4).
+Proof. split; [vm_compute; reflexivity|]. split; vm_compute; reflexivity. Qed.
+
+Example C12_trace_ex : length (trace (init false false) (map OAdd ex_files ++ ex_ops)) = 12.
+Proof. vm_compute. reflexivity. Qed.
 
 Example C12_files_ex :
   length (accepted (init false false) (map OAdd ex_files ++ [OAdd (fl 6 0 10)])) = 7.
